@@ -1048,6 +1048,30 @@ void checkEgrid(Monitor& m, Rng& rng, const CaseSpec& cs, const Opm::EclipseGrid
                 if (!same || (!formatted && !(*ma == *mb))) m.viol("egrid:mapaxes", combo + ": MAPAXES values differ after reload");
                 const std::string ua = ma->mapunits() ? trimmed(*ma->mapunits()) : "<none>", ub = mb->mapunits() ? trimmed(*mb->mapunits()) : "<none>";
                 if (ua != ub) m.viol("egrid:mapunits", combo + ": MAPUNITS " + ua + " became " + ub);
+                // what the map axes DO: grid <-> map positions of a few points must agree between the grid saved and the grid loaded
+                // (to the precision of the six REALs in the file; the origin is scaled by the MAPUNITS length on both routes)
+                // The file holds the six numbers as REALs: a direction of the map frame is the difference of two of them, so its
+                // relative error is eps * scale / (length of the axis) and the position error grows with the distance from the origin.
+                double scale = 1000.0;
+                for (double v : ma->input()) scale = std::max(scale, std::fabs((double)v));
+                std::vector<double> in(ma->input().begin(), ma->input().end());
+                const double axis = std::max(1e-3, std::min(std::hypot(in[4] - in[2], in[5] - in[3]), std::hypot(in[0] - in[2], in[1] - in[3])));
+                const double eps = (formatted ? 4e-7 : 1.2e-7) * scale;
+                const double P[4][2] = {{0, 0}, {100, 50}, {-30, 1000}, {2500, -400}};
+                for (auto& p0 : P) {
+                    const double dist = std::hypot(p0[0], p0[1]);
+                    const double ttol = 4 * eps + 8 * (eps / axis) * dist;
+                    double xa = p0[0], ya = p0[1], xb = p0[0], yb = p0[1];
+                    ma->transform(xa, ya); mb->transform(xb, yb);
+                    if (!(std::fabs(xa - xb) <= ttol && std::fabs(ya - yb) <= ttol))
+                        m.viol("egrid:mapaxes-transform", fmt("%s: MapAxes::transform(%g, %g) = (%.10g, %.10g) for the grid saved, (%.10g, %.10g) after reload (MAPUNITS %s, tolerance %.3g)", combo.c_str(), p0[0], p0[1], xa, ya, xb, yb, ua.c_str(), ttol));
+                    // back from the map position of that point
+                    double ia = xa, ja = ya, ib = xa, jb = ya;
+                    ma->inv_transform(ia, ja); mb->inv_transform(ib, jb);
+                    const double itol = 4 * ttol + 1e-9 * scale;
+                    if (!(std::fabs(ia - ib) <= itol && std::fabs(ja - jb) <= itol))
+                        m.viol("egrid:mapaxes-transform", fmt("%s: MapAxes::inv_transform(map position of (%g, %g)) = (%.10g, %.10g) for the grid saved, (%.10g, %.10g) after reload (MAPUNITS %s, tolerance %.3g)", combo.c_str(), p0[0], p0[1], ia, ja, ib, jb, ua.c_str(), itol));
+                }
                 m.count("egrid_mapaxes_compared");
             }
             // ---- the low level reader
